@@ -93,6 +93,14 @@ def _install():
             return True
         mon.count("post:set_velocity_matrix")
         kw = dict(_KWARGS)
+        if c.get("caller_kw") is not None:
+            # inside ForSys.solve_stress: what counts are the options the USER gave to the solve, whatever the solver hands on
+            for k_ in ("b_matrix", "adimensional_velocity", "velocity_normalization"):
+                if k_ in c["caller_kw"]:
+                    kw[k_] = c["caller_kw"][k_]
+                else:
+                    kw.pop(k_, None)
+            mon.count("rhs:through-solve")
         b, avg = result
         b = np.asarray(b, float)
         m = self.matrix.shape[0]
@@ -210,6 +218,15 @@ def _one(rng, fam, mon, sigs, hist):
                            {"b_matrix": "velocity", "adimensional_velocity": bool(rng.integers(2)),
                             "velocity_normalization": [0, 0.0][int(rng.integers(2))]}):
                     fm.set_velocity_matrix(mesh, **kw)
+                if rng.random() < 0.5:
+                    # the same options given to the solve: the right-hand side it assembles must honour them
+                    kw_s = {"b_matrix": "velocity", "adimensional_velocity": bool(rng.integers(2)),
+                            "velocity_normalization": float(10 ** rng.uniform(-1, 1))}
+                    CTX["cur"]["caller_kw"] = kw_s
+                    try:
+                        solver.solve_stress(when=t, allow_negatives=False, **kw_s)
+                    finally:
+                        CTX["cur"].pop("caller_kw", None)
             except Exception as exc:
                 import traceback
                 fm_ = solver.force_matrices.get(t)
